@@ -734,12 +734,48 @@ func fileUsersThenRate(o *kit.Out, r *kit.Rand, dir string, idx int) {
 
 // ---------------------------------------------------------------- C03: whole runs ended by the limit, all modes and file stages
 
+// cliFileLimit: `f1 run file <config>` from the command line, the limit written in the file next to
+// a max-failures that is absent, smaller or larger than it: exactly max-iterations invocations,
+// identifiers 1..N.
+func cliFileLimit(o *kit.Out, r *kit.Rand, dir string, idx int) {
+	n := r.Range(4, 30)
+	mf := ""
+	switch idx % 3 {
+	case 1:
+		mf = fmt.Sprintf("  max-failures: %d\n", r.Range(1, n-1))
+	case 2:
+		mf = fmt.Sprintf("  max-failures: %d\n", n+r.Range(1, 40))
+	}
+	name := fmt.Sprintf("c03cli%d", idx)
+	yaml := "scenario: " + name + "\ndefault:\n  mode: constant\n  rate: 3/10ms\n  jitter: 0\n  distribution: none\n" +
+		"limits:\n  max-duration: 5s\n  concurrency: 3\n  max-iterations: " + strconv.FormatInt(n, 10) + "\n  ignore-dropped: true\n" + mf +
+		"stages:\n  - duration: 2s\n    mode: constant\n    rate: 3/10ms\n  - duration: 2s\n    mode: users\n    concurrency: 2\n"
+	file := dir + "/" + name + ".yaml"
+	_ = writeFile(file, yaml)
+	ob := &obs{live: map[*f1testing.T]bool{}}
+	inst := f1.New()
+	inst.Add(name, func(*f1testing.T) f1testing.RunFn {
+		return func(t *f1testing.T) { ob.enter(t); ob.leave(t) }
+	})
+	crashed, _ := kit.Guard(func() { _ = inst.ExecuteWithArgs([]string{"run", "file", file}) })
+	if crashed {
+		o.Fail("c03-cli-crash", "f1 run file crashed")
+		return
+	}
+	o.Count("cli", "run file with max-iterations in the file, max-failures "+[]string{"absent", "below it", "above it"}[idx%3])
+	o.Case("c03_ok", []string{kit.Ints(ob.idsDesc()), kit.I(n), "T"}, "T", "cli-file", "ids", "nt")
+}
+
 func TestC03Runs(t *testing.T) {
 	o := kit.Get()
 	defer o.Close()
 	r := kit.NewRand(kit.Seed() + 3)
 	n := kit.N(14, 120)
 	dir := t.TempDir()
+	cliDir := t.TempDir()
+	for k := 0; k < kit.N(3, 18); k++ {
+		cliFileLimit(o, r, cliDir, k)
+	}
 	for i := 0; i < n; i++ {
 		mode := runkit.Modes[i%len(runkit.Modes)]
 		limit := uint64(r.Range(1, 400))
